@@ -144,11 +144,11 @@ def do_command(root, cmd, clock_t, archives, check):
 
         sqlite3.connect, cf.Future.result = connect, result
         try:
-            res = driver.run_cli(argv, root, vk=vk, git=fakegit.NO_GIT, clock=ck, timeout=30)
+            res = driver.run_cli(argv, root, vk=vk, git=fakegit.NO_GIT, clock=ck, timeout=8)
         finally:
             sqlite3.connect, cf.Future.result = real_connect, real_result
         if getattr(res, "timed_out", False):
-            check("run:hang", "cond run did not come back within 30 s")
+            check("run:hang", "cond run did not come back within 8 s")
         t_end = hist.data_tree(root)
         for d, sub in at_commit.items():
             now = hist.subtree(t_end, d)
@@ -229,6 +229,8 @@ def run_item(item, tier):
             return
         snap = hist.snapshot(root, os.path.join(driver.scratch_root(), "c08snap%d" % depth_left))
         for (c, s) in letters:
+            if "run:hang" in found:
+                break     # every further history through the same fault would cost another watchdog period
             hist.restore_snapshot(snap, root)
             h2 = history + [[c, s]]
             t2 = clock_t + s
